@@ -120,7 +120,16 @@ class QModuleMixin(ABC):
         if activations is not None and not isinstance(activations, qtype):
             activations = qtypes[activations]
         self.weight_qtype = weights
-        self.weight_group_size = None
+        self.weight_group_size = self._default_weight_group_size()
+        self.activation_qtype = activations
+        self.optimizer = optimizer
+        # The scales must have the dtype (and device) of the module, like its other floating point tensors
+        scale_kwargs = {k: v for k, v in kwargs.items() if k in ("dtype", "device")}
+        self.register_buffer("input_scale", torch.ones((), **scale_kwargs))
+        self.register_buffer("output_scale", torch.ones((), **scale_kwargs))
+
+    def _default_weight_group_size(self):
+        # The group size only depends on the weight qtype and shape
         if self.weight_qtype in (qint2, qint4):
             out_features = self.weight.shape[0]
             in_features = self.weight.numel() // out_features
@@ -129,13 +138,8 @@ class QModuleMixin(ABC):
                 while in_features % group_size != 0 and group_size > 32:
                     group_size -= 32
                 if in_features % group_size == 0:
-                    self.weight_group_size = group_size
-        self.activation_qtype = activations
-        self.optimizer = optimizer
-        # The scales must have the dtype (and device) of the module, like its other floating point tensors
-        scale_kwargs = {k: v for k, v in kwargs.items() if k in ("dtype", "device")}
-        self.register_buffer("input_scale", torch.ones((), **scale_kwargs))
-        self.register_buffer("output_scale", torch.ones((), **scale_kwargs))
+                    return group_size
+        return None
 
     def _save_to_state_dict(self, destination, prefix, keep_vars):
         if self.weight_qtype is None or not self.frozen:
@@ -158,6 +162,8 @@ class QModuleMixin(ABC):
     ):
         weight_qtype = state_dict.pop(prefix + "weight_qtype")
         self.weight_qtype = None if weight_qtype == "none" else qtypes[weight_qtype]
+        # The weight qtype may differ from the one the module was created with
+        self.weight_group_size = self._default_weight_group_size()
         activation_qtype = state_dict.pop(prefix + "activation_qtype")
         self.activation_qtype = None if activation_qtype == "none" else qtypes[activation_qtype]
 
